@@ -45,7 +45,8 @@ type bad struct{}
 
 // runesV is a string whose content is a vector of symbolic code points of concrete length.
 type runesV struct {
-	cps []*Term
+	cps   []*Term
+	bytes bool // elements are bytes (exact Go byte semantics) rather than code points
 }
 
 // symBytes is a []byte whose content is the (possibly symbolic) string s.
